@@ -393,6 +393,9 @@ let exec (s : t) (verbose : bool) (f : string array) (obs : string option) : str
     (match Hashtbl.find_opt cur_handle s.cur with Some h -> lock_close h | None -> ());
     s.db <- None; s.disk <- k; s.batch <- None;
     "ok" ^ events_str ~sorted:true evs
+  | "mergebatchcrash" ->
+    (* judged on the implementation side only (reference mapping); the database is left closed *)
+    s.db <- None; s.batch <- None; "done"
   | "closefail" ->
     (* Close with a failing file sync: everything was written before, the lock is released all the same *)
     let (k, _) = db_close (get_db s) s.disk in
